@@ -1,6 +1,7 @@
 package main
 
 import (
+	"hash/fnv"
 	"bytes"
 	"context"
 	"errors"
@@ -164,6 +165,20 @@ func hasRt(fdp *descriptorpb.FileDescriptorProto) bool {
 	return fdp.GetOptions() != nil && proto.HasExtension(fdp.GetOptions(), xtRt)
 }
 
+// unusedIdx: which dependency entries of f count as unused imports - a pure function of the
+// file (so the image rebuilt from a protocol line by the re-executed plugin is the same).
+func unusedIdx(f mfile) []int32 {
+	var out []int32
+	for j, d := range f.deps {
+		h := fnv.New32a()
+		h.Write([]byte(f.path + "\x00" + d))
+		if h.Sum32()%4 == 0 {
+			out = append(out, int32(j))
+		}
+	}
+	return out
+}
+
 func buildImage(img []mfile) (bufimage.Image, map[string]*descriptorpb.FileDescriptorProto, error) {
 	initExt()
 	files := make([]bufimage.ImageFile, 0, len(img))
@@ -182,7 +197,11 @@ func buildImage(img []mfile) (bufimage.Image, map[string]*descriptorpb.FileDescr
 				{Name: proto.String(fmt.Sprintf("M%d", i))},
 			},
 		}
-		imf, err := bufimage.NewImageFile(fdp, nil, uuid.Nil, "", "", f.isImport, false, nil)
+		// the unused-import shape (seed C17-m10): a quarter of the dependency entries are marked as
+		// flagged by the compiler (ImageFile.UnusedDependencyIndexes, what BuildImage records and the
+		// buf extension of a prebuilt image carries).  The model takes no notice: an unused import is
+		// still a dependency of the file and must travel with it.
+		imf, err := bufimage.NewImageFile(fdp, nil, uuid.Nil, "", "", f.isImport, false, unusedIdx(f))
 		if err != nil {
 			return nil, nil, err
 		}
@@ -600,6 +619,12 @@ func sectionA(run *hx.Run, r *hx.Rand) {
 			run.Count(fmt.Sprintf("A:requests:%d", min(strings.Count(out, ";")+1, 5)))
 		}
 		run.Count(fmt.Sprintf("A:files:%d", len(img)))
+		for _, f := range img {
+			if len(unusedIdx(f)) > 0 {
+				run.Count("A:images-with-unused-dependency")
+				break
+			}
+		}
 		if i < 2 {
 			run.Sample(map[string]any{"section": "A", "image": describe(img)})
 		}
